@@ -9,6 +9,7 @@
 // and count evaluated clauses with VF_OK("clause name").
 #pragma once
 #include <atomic>
+#include <cassert>
 #include <cerrno>
 #include <csignal>
 #include <cstdarg>
@@ -601,7 +602,7 @@ namespace vf
 } // namespace vf
 
 // assert() inside igris (or the harness) becomes an attributed failure instead of an anonymous SIGABRT
-extern "C" void __assert_fail(const char *expr, const char *file, unsigned int line, const char *func)
+extern "C" void __assert_fail(const char *expr, const char *file, unsigned int line, const char *func) noexcept
 {
     using namespace vf;
     Global &G = g();
